@@ -29,6 +29,11 @@ func NewContainer() *Container {
 func (m *Container) AddAccessory(a *Accessory) error {
 	a.UpdateIDs()
 	if a.ID == 0 {
+		// An id which was set explicitly for another accessory is not available
+		for m.as[m.idCount] != nil {
+			m.idCount++
+		}
+
 		a.ID = m.idCount
 		m.idCount++
 	}
